@@ -129,6 +129,14 @@ def bounded(sess: Session):
                      f'lowest_common_hypernyms / taxonomy_depth on graphs without a cycle of length >= 2', cases,
                      'small-scope enumeration on the real functions', not fails)
     report_graph_failures(sess, fails, PROP)
+    if sess.tier == 'thorough':
+        for kind in ('paths', 'taxonomy'):
+            for nn in (5, 6, 7):
+                cases, fails = G.sample(kind, nn, 3000, seed=sess.seed)
+                sess.add_bounded(f'wn.taxonomy / relation_paths ({kind}, larger graphs)',
+                                 f'{cases} random digraphs with {nn} nodes (seed {sess.seed}; half of them acyclic)',
+                                 cases, 'random sampling on the real functions', not fails)
+                report_graph_failures(sess, fails, PROP)
     # K4: the recorded deviation on graphs with a cycle of length >= 2 (still reported, as a known finding)
     g = ((1,), (2,), (0,), (0,))      # 0->1->2->0 with tail 3->0
     nodes, w = G.build(g)
